@@ -80,6 +80,12 @@ type hevent struct {
 	Conn  int    // -1: nil connection (report only)
 	Obs   addr
 	Class string // generator's label, used for counters and witnesses only — never by the oracle
+	// a "close" that happens WHILE a report of the same connection is being processed: the connection is
+	// closed and the Disconnected notification delivered from inside the manager's own LocalMultiaddr()
+	// call for that report (i.e. after its early checks, before it takes its lock). For the statement this
+	// is a close: "a connection's report is withdrawn when the connection closes" - nothing of it counts.
+	Racing  bool
+	RaceObs addr
 }
 
 type history struct {
